@@ -182,8 +182,10 @@ def _map_vars(
     for role, tgt in branches:
         if not is_atomic(tgt):
             tgt = _map_vars(tgt, varmap)
-        elif role != '/' and tgt in varmap:
-            tgt = varmap[tgt]
+        elif role != '/' and isinstance(tgt, str):
+            v, tilde, aln = tgt.partition('~')
+            if v in varmap:
+                tgt = varmap[v] + tilde + aln
         newbranches.append((role, tgt))
 
     return (varmap[var], newbranches)
